@@ -1,8 +1,28 @@
 (* Proofs about the history-level model with discovered dependencies (HistDepsDefs.v).  No axioms.
-   Part A: the inlined manifest is a fragment-AB manifest; one command of the deps variant is one
-           command of the inlined variant ([drun_edge_h]); the invariants [Good] (for the inlined
-           manifest) and [DepsOk] (records = last successful run's reads, not older than the
-           output) are kept by every history step ([goodd_hist]). *)
+   Part A : the inlined manifest [inline g hid] is a fragment-AB manifest; one command of the deps
+            variant is one command of the inlined variant ([drun_edge_h]); the invariants [Good] (for the
+            inlined manifest) and [DepsOk] (records = last successful run's reads, not older than the
+            output) are kept by every history step ([goodd_hist]); the loop invariant of one build
+            ([dbuild_inv1]).
+   Part SD: what an accepted scan of a manifest WITH deps statements means (HistProofs' Part S redone for
+            fragment D): [RD] = outputs_ready_ / inputs final / what the scan did about the record
+            ([RDat] clauses 5, 6: spliced, or dirty for an own reason, or deps_missing_ <-> record
+            unusable); [PID] = the want map closed under the inputs the scan LEFT in the edges;
+            [scan_want_soundD], [scan_want_completeD]; no load error ([scan_no_loaderrD]); a refusal
+            "missing and no known rule" comes with a chain of not-ready statements
+            ([add_targets_missing_D], [nrpath]); [transfer_contra]: such a chain in one manifest
+            refutes acceptance by the other.
+   Part B : the commands one build runs ([dbuild_trace]); (iv) [C10_stale_record_reruns_proof].
+   Part E : [must_dirty] is the same for the deps manifest + deps log and for the inlined manifest
+            ([md_d_i], [md_i_d]); the two scans want the same statements ([want_eq]).
+   Part G : the two manifests accept or refuse together ([accept_equiv]).
+   Part C : PERSIST ([persist]): a statement dirty at the scan that reads from no restat statement is
+            still dirty for Plan::CleanNode's test (on [graph_now]) when its turn comes; (ii)
+            [C10_changed_dep_reruns_proof], (iii) [C10_missing_dep_dirty_proof]; the two builds step by
+            step ([step_dirty_eq], [equiv_upto]).
+   Part F : histories: [C10_equiv_states] / [C10_equiv_present_states], C01 and C02 for the deps
+            manifest; then the example projects, the full statements with the side conditions as
+            switches, and the two findings as refutations with concrete witnesses. *)
 From NinjaV Require Import Engine.CrashDefs.
 From NinjaV Require Import Base.Bytes Engine.ScanDefs Engine.ScanSpec Engine.ScanProofs Engine.HistDefs Engine.HistProofs Engine.HistDepsDefs.
 Local Open Scope Z_scope.
@@ -2938,6 +2958,95 @@ Proof.
   inversion Hb2; subst ds''. apply dbuild_upto_idle. apply (Hwant s p eq_refl).
 Qed.
 
+(* ---- the same with the side condition that does not mention the scans *)
+Lemma dbuild_some ds T : (exists ds', dbuild cmd g hid ds T = Some ds') <-> (exists s p, dscan g ds T = ScanOk s p).
+Proof.
+  unfold dbuild. destruct (dscan g ds T) as [c|m d|e| |s p]; split.
+  all: try (intros [x Hx]; discriminate Hx).
+  all: try (intros [x [y Hy]]; discriminate Hy).
+  - intros _. exists s, p. reflexivity.
+  - intros _. eexists. reflexivity.
+Qed.
+
+Lemma build_some st T : (exists st', build cmd gi st T = Some st') <->
+  (exists s p, scan (graph_of gi st) (world_of st) T = ScanOk s p).
+Proof.
+  unfold build. destruct (scan (graph_of gi st) (world_of st) T) as [c|m d|e| |s p]; split.
+  all: try (intros [x Hx]; discriminate Hx).
+  all: try (intros [x [y Hy]]; discriminate Hy).
+  - intros _. exists s, p. reflexivity.
+  - intros _. eexists. reflexivity.
+Qed.
+
+Lemma step_equiv_present ds x : GoodD ds -> step_ok g x = true ->
+  match x with Build T => hidden_srcs_present g hid (d_h ds) && targets_known g T | _ => true end = true ->
+  d_h (dapply_step cmd g hid ds x) = apply_step cmd gi (d_h ds) x.
+Proof.
+  intros HG Hok Hp. destruct x as [n c|n|e hh|T]; cbn [dapply_step apply_step dlift d_h]; try reflexivity.
+  apply andb_true_iff in Hp. destruct Hp as [Hpres HT].
+  pose proof (accept_equiv Hord Hnip ds T HG Hpres HT) as Hacc.
+  destruct (dbuild cmd g hid ds T) as [ds'|] eqn:Hb; destruct (build cmd gi (d_h ds) T) as [st'|] eqn:Hi.
+  - apply (C10_equiv_build_proof ds T ds' st' HG Hb Hi).
+  - exfalso.
+    assert (Hd : exists s p, dscan g ds T = ScanOk s p) by (apply (proj1 (dbuild_some ds T)); exists ds'; exact Hb).
+    destruct (proj1 Hacc Hd) as [si [pi Hs]]. unfold build in Hi. rewrite Hs in Hi. discriminate.
+  - exfalso.
+    assert (Hx : exists si pi, scan (Gi ds) (Wi ds) T = ScanOk si pi) by (apply (proj1 (build_some (d_h ds) T)); exists st'; exact Hi).
+    destruct (proj2 Hacc Hx) as [s [p Hs]]. unfold dbuild in Hb. rewrite Hs in Hb. discriminate.
+  - reflexivity.
+Qed.
+
+Theorem C10_equiv_present_states : forall h ds,
+  GoodD ds -> hist_ok g h = true -> hist_present cmd g hid ds h = true ->
+  d_h (drun_hist cmd g hid ds h) = run_hist cmd gi (d_h ds) h.
+Proof.
+  induction h as [|x h IH]; intros ds HG Hok Hside; [reflexivity|].
+  cbn [hist_ok forallb] in Hok. apply andb_true_iff in Hok. destruct Hok as [Hx Hh].
+  cbn [hist_present] in Hside. apply andb_true_iff in Hside. destruct Hside as [Hsx Hsh].
+  change (drun_hist cmd g hid ds (x :: h)) with (drun_hist cmd g hid (dapply_step cmd g hid ds x) h).
+  change (run_hist cmd gi (d_h ds) (x :: h)) with (run_hist cmd gi (apply_step cmd gi (d_h ds) x) h).
+  rewrite <- (step_equiv_present ds x HG Hx Hsx).
+  apply IH; [apply goodd_step; assumption|exact Hh|exact Hsh].
+Qed.
+
+Theorem C10_equiv_present_proof h :
+  hist_ok g h = true -> hist_present cmd g hid (init_dstate g) h = true ->
+  d_h (drun_hist cmd g hid (init_dstate g) h) = run_hist cmd gi (init_hstate gi) h.
+Proof.
+  intros Hok Hside. apply (C10_equiv_present_states h (init_dstate g) goodd_init Hok Hside).
+Qed.
+
+Lemma hist_present_app : forall h h2 ds,
+  hist_present cmd g hid ds (h ++ h2) =
+  (hist_present cmd g hid ds h && hist_present cmd g hid (drun_hist cmd g hid ds h) h2)%bool.
+Proof.
+  induction h as [|x h IH]; intros h2 ds; [reflexivity|].
+  change ((x :: h) ++ h2) with (x :: (h ++ h2)). cbn [hist_present].
+  change (drun_hist cmd g hid ds (x :: h)) with (drun_hist cmd g hid (dapply_step cmd g hid ds x) h).
+  rewrite IH, andb_assoc. reflexivity.
+Qed.
+
+(* C01 for the deps manifest, from the side condition that does not mention the inlined manifest *)
+Theorem C10_C01_present_proof h T ds' :
+  (forall e hh hh' S o, ei_generator (g_edge g e) = true -> cmd e hh S o = cmd e hh' S o) ->
+  hist_ok g h = true -> hist_present cmd g hid (init_dstate g) (h ++ [Build T]) = true ->
+  dbuild cmd g hid (drun_hist cmd g hid (init_dstate g) h) T = Some ds' ->
+  forall n, reach gi T n -> content_of (d_h ds') n = clean_of_d cmd g hid ds' n.
+Proof.
+  intros Hgen Hok Hside Hb n Rn.
+  rewrite hist_present_app in Hside. apply andb_true_iff in Hside. destruct Hside as [Hs1 Hs2].
+  cbn [hist_present] in Hs2. rewrite andb_true_r in Hs2. apply andb_true_iff in Hs2. destruct Hs2 as [Hpres HT].
+  set (dsh := drun_hist cmd g hid (init_dstate g) h) in *.
+  pose proof (goodd_hist h (init_dstate g) goodd_init Hok) as HGh. fold dsh in HGh.
+  pose proof (C10_equiv_present_proof h Hok Hs1) as Heq. fold dsh in Heq.
+  destruct (proj1 (accept_equiv Hord Hnip dsh T HGh Hpres HT)) as [si [pi Hsi]].
+  { apply (proj1 (dbuild_some dsh T)). exists ds'. exact Hb. }
+  destruct (proj2 (build_some (d_h dsh) T)) as [st' Hi]; [exists si, pi; exact Hsi|].
+  pose proof (C10_equiv_build_proof dsh T ds' st' HGh Hb Hi) as Heq'.
+  unfold clean_of_d. rewrite Heq'. rewrite Heq in Hi.
+  apply (C01_history cmd gi Hwfi Hwg (frag_AB_inline g hid HfD) Htopo Hgen h T st' Hok Hi n Rn).
+Qed.
+
 End HistEquiv.
 
 End PartA.
@@ -2985,8 +3094,7 @@ Definition C10_equiv_full (need_ord need_nr : bool) : Prop :=
     (need_nr = true -> no_restat_upstream_of_deps g hid = true) ->
     no_inputless_phony g = true ->
   forall h : list hstep,
-    hist_ok g h = true ->
-    hist_side cmd g hid (init_dstate g) (init_hstate (inline g hid)) h = true ->
+    hist_ok g h = true -> hist_present cmd g hid (init_dstate g) h = true ->
     d_h (drun_hist cmd g hid (init_dstate g) h) = run_hist cmd (inline g hid) (init_hstate (inline g hid)) h.
 
 Definition C10_C01_full (need_ord need_nr : bool) : Prop :=
@@ -2996,22 +3104,21 @@ Definition C10_C01_full (need_ord need_nr : bool) : Prop :=
     (need_nr = true -> no_restat_upstream_of_deps g hid = true) ->
     no_inputless_phony g = true ->
     (forall e hh hh' S o, ei_generator (g_edge g e) = true -> cmd e hh S o = cmd e hh' S o) ->
-  forall (h : list hstep) (T : list node),
-    hist_ok g (h ++ [Build T]) = true ->
-    hist_side cmd g hid (init_dstate g) (init_hstate (inline g hid)) (h ++ [Build T]) = true ->
-    let ds' := drun_hist cmd g hid (init_dstate g) (h ++ [Build T]) in
+  forall (h : list hstep) (T : list node) (ds' : dstate),
+    hist_ok g h = true -> hist_present cmd g hid (init_dstate g) (h ++ [Build T]) = true ->
+    dbuild cmd g hid (drun_hist cmd g hid (init_dstate g) h) T = Some ds' ->
     forall n, reach (inline g hid) T n -> content_of (d_h ds') n = clean_of_d cmd g hid ds' n.
 
 Theorem C10_equiv_full_proof : C10_equiv_full true true.
 Proof.
   intros cmd g hid Hwf Hwg Hfrag Htopo Hord Hnr Hnip h Hok Hside.
-  apply (C10_equiv_proof cmd g hid Hwf Hwg Hfrag Htopo (Hord eq_refl) (Hnr eq_refl) Hnip h Hok Hside).
+  apply (C10_equiv_present_proof cmd g hid Hwf Hwg Hfrag Htopo (Hord eq_refl) (Hnr eq_refl) Hnip h Hok Hside).
 Qed.
 
 Theorem C10_C01_full_proof : C10_C01_full true true.
 Proof.
-  intros cmd g hid Hwf Hwg Hfrag Htopo Hord Hnr Hnip Hgen h T Hok Hside.
-  apply (C10_C01_proof cmd g hid Hwf Hwg Hfrag Htopo (Hord eq_refl) (Hnr eq_refl) Hnip h T Hgen Hok Hside).
+  intros cmd g hid Hwf Hwg Hfrag Htopo Hord Hnr Hnip Hgen h T ds' Hok Hside Hb.
+  apply (C10_C01_present_proof cmd g hid Hwf Hwg Hfrag Htopo (Hord eq_refl) (Hnr eq_refl) Hnip h T ds' Hgen Hok Hside Hb).
 Qed.
 
 (* finding restat-prune-ignores-recorded-deps: without [no_restat_upstream_of_deps] both are false *)
@@ -3023,8 +3130,8 @@ Proof.
                   ltac:(vm_compute; reflexivity) ltac:(vm_compute; reflexivity) ltac:(intros _; vm_compute; reflexivity)
                   ltac:(discriminate) ltac:(vm_compute; reflexivity)
                   (Ex_cmd_gen ExRestatPrune.g ltac:(intros [|[|e]]; reflexivity))
-                  (firstn 5 ExRestatPrune.hist) [3%nat]
-                  ltac:(vm_compute; reflexivity) ltac:(vm_compute; reflexivity) 3%nat
+                  (firstn 5 ExRestatPrune.hist) [3%nat] ExRestatPrune.ds_end
+                  ltac:(vm_compute; reflexivity) ltac:(vm_compute; reflexivity) ltac:(vm_compute; reflexivity) 3%nat
                   ltac:(apply reach_target; left; reflexivity)) as Hc.
     revert Hc. vm_compute. discriminate.
   - intros H.
@@ -3044,8 +3151,8 @@ Proof.
                   ltac:(vm_compute; reflexivity) ltac:(vm_compute; reflexivity) ltac:(discriminate)
                   ltac:(intros _; vm_compute; reflexivity) ltac:(vm_compute; reflexivity)
                   (Ex_cmd_gen ExNotLoaded.g ltac:(intros [|[|e]]; reflexivity))
-                  (firstn 5 ExNotLoaded.hist) [3%nat]
-                  ltac:(vm_compute; reflexivity) ltac:(vm_compute; reflexivity) 3%nat
+                  (firstn 5 ExNotLoaded.hist) [3%nat] ExNotLoaded.ds_end
+                  ltac:(vm_compute; reflexivity) ltac:(vm_compute; reflexivity) ltac:(vm_compute; reflexivity) 3%nat
                   ltac:(apply reach_target; left; reflexivity)) as Hc.
     revert Hc. vm_compute. discriminate.
   - intros H.
@@ -3056,8 +3163,8 @@ Proof.
     apply (f_equal (@h_trace)) in Hc. revert Hc. vm_compute. discriminate.
 Qed.
 
-(* the same as concrete witnesses: an accepted history whose last build succeeds and leaves an
-   output that is not what a clean build makes, while the inlined manifest gets it right *)
+(* the same as concrete witnesses: a history whose last build succeeds and leaves an output that is
+   not what a clean build makes, while the inlined manifest gets it right *)
 Definition C10_stale_witness (need_ord need_nr : bool) : Prop :=
   exists (cmd : edge -> N -> snapshot -> node -> content) (g : graph) (hid : edge -> list node)
          (h : list hstep) (T : list node) (n : node),
@@ -3065,6 +3172,7 @@ Definition C10_stale_witness (need_ord need_nr : bool) : Prop :=
     hidden_reads_ordered g hid = need_ord /\ no_restat_upstream_of_deps g hid = need_nr /\
     no_inputless_phony g = true /\
     hist_ok g (h ++ [Build T]) = true /\
+    hist_present cmd g hid (init_dstate g) (h ++ [Build T]) = true /\
     hist_side cmd g hid (init_dstate g) (init_hstate (inline g hid)) (h ++ [Build T]) = true /\
     reach (inline g hid) T n /\
     (exists ds', dbuild cmd g hid (drun_hist cmd g hid (init_dstate g) h) T = Some ds' /\
@@ -3193,13 +3301,25 @@ Theorem C10_same_commands_proof :
     hidden_reads_ordered g hid = true -> no_restat_upstream_of_deps g hid = true ->
     no_inputless_phony g = true ->
   forall h : list hstep,
-    hist_ok g h = true ->
-    hist_side cmd g hid (init_dstate g) (init_hstate (inline g hid)) h = true ->
+    hist_ok g h = true -> hist_present cmd g hid (init_dstate g) h = true ->
     h_trace (d_h (drun_hist cmd g hid (init_dstate g) h)) =
     h_trace (run_hist cmd (inline g hid) (init_hstate (inline g hid)) h) /\
     forall n, content_of (d_h (drun_hist cmd g hid (init_dstate g) h)) n =
               content_of (run_hist cmd (inline g hid) (init_hstate (inline g hid)) h) n.
 Proof.
   intros cmd g hid Hwf Hwg Hfrag Htopo Hord Hnr Hnip h Hok Hside.
-  rewrite (C10_equiv_proof cmd g hid Hwf Hwg Hfrag Htopo Hord Hnr Hnip h Hok Hside). split; reflexivity.
+  rewrite (C10_equiv_present_proof cmd g hid Hwf Hwg Hfrag Htopo Hord Hnr Hnip h Hok Hside). split; reflexivity.
+Qed.
+
+Theorem C10_accept_equiv_proof :
+  forall (cmd : edge -> N -> snapshot -> node -> content) (g : graph) (hid : edge -> list node),
+    wf_spec g -> wf_graph g -> frag_ABD g hid = true -> topo_ordered (inline g hid) = true ->
+    hidden_reads_ordered g hid = true -> no_inputless_phony g = true ->
+  forall (ds : dstate) (T : list node), GoodD cmd g hid ds ->
+    hidden_srcs_present g hid (d_h ds) = true -> targets_known g T = true ->
+    ((exists s p, dscan g ds T = ScanOk s p) <->
+     (exists si pi, scan (graph_of (inline g hid) (d_h ds)) (world_of (d_h ds)) T = ScanOk si pi)).
+Proof.
+  intros cmd g hid Hwf Hwg Hfrag Htopo Hord Hnip ds T HG Hp HT.
+  apply (accept_equiv cmd g hid Hwf Hwg Hfrag Htopo Hord Hnip ds T HG Hp HT).
 Qed.
